@@ -730,6 +730,14 @@ class Interp:
         h = lookup_model(func)
         if h is not None:
             return h(self, list(args), kwargs)
+        # a contract-supplied summary takes precedence over everything else
+        if self.summaries and isinstance(func, (types.MethodType, types.FunctionType)):
+            f0 = func.__func__ if isinstance(func, types.MethodType) else func
+            qn0 = "%s:%s" % (getattr(f0, "__module__", "?"), getattr(f0, "__qualname__", "?"))
+            h0 = self.summaries.get(qn0)
+            if h0 is not None:
+                a0 = ([func.__self__] if isinstance(func, types.MethodType) else []) + list(args)
+                return h0(self, a0, kwargs)
         # closed terms (every argument concrete) are evaluated by the real code itself
         if isinstance(func, (types.MethodType, types.FunctionType)) or (isinstance(func, type) and not issubclass(func, BaseException)):
             if deep_concrete(list(args)) and deep_concrete(kwargs) and deep_concrete(getattr(func, "__self__", None)):
